@@ -58,6 +58,7 @@ def run(ctx):
     prog = ctx.prog('default')
     ctx.rules += ['R2 guarded-cell results per bound N on N-bit pattern cells', 'R5 selector dependence', 'R8 layout/units of decoded fields']
     tot = 0
+    pjobs = []
     for xty in XTYS:
         for n in ns(ctx):
             px = xty.px(n)
@@ -75,7 +76,7 @@ def run(ctx):
                                lambda cell, n=n, xty=xty: [px_arg(xty, n, c[0], c[1], i) for i, c in enumerate(cell)],
                                [cells, cells], spec_n(px, f, 2), 32, gargs=g, flat=flat1, key_label='%s::%s' % (xty.name, nm))
                 tot += decided(st)
-                if n >= 4 and (ctx.tier == 'thorough' or n in (5, 8, 16, 32)):
+                if n >= 4 and (ctx.tier == 'thorough' or n in (5, 8, 32)):
                     # rounding matrix of the N-bit format: every result scale x rounding situation (directed construction from (N, es))
                     import probes
                     from props.common import run_points
@@ -83,9 +84,9 @@ def run(ctx):
                     fmt = gcr.PTy('%s<%d>' % (xty.name, n), xty.tykey, n, xty.es)
                     pts = probes.op_probes(fmt, nm, 1)
                     sh_ = 32 - n
-                    run_points(ctx, prog, 'GCR', '%s<%d>::%s' % (xty.name, n, nm), path, fmt, pts,
-                               lambda xs, px=px, f=f, sh_=sh_: spec_n(px, f, 2)([x << sh_ for x in xs]), gargs=g, key_label='%s::%s' % (xty.name, nm),
-                               mkargs=lambda pt, n=n, xty=xty: [px_arg(xty, n, x, x, i) for i, x in enumerate(pt)], out_bits=32)
+                    pjobs.append(dict(rule='GCR', label='%s<%d>::%s' % (xty.name, n, nm), path=path, pty=fmt, points=pts,
+                                      spec=(lambda xs, px=px, f=f, sh_=sh_: spec_n(px, f, 2)([x << sh_ for x in xs])), gargs=g, key_label='%s::%s' % (xty.name, nm),
+                                      mkargs=(lambda pt, n=n, xty=xty: [px_arg(xty, n, x, x, i) for i, x in enumerate(pt)]), out_bits=32))
             for nm, f in TER.items():
                 path = prog.inherent(xty.tykey, nm)
                 if not path:
@@ -97,22 +98,22 @@ def run(ctx):
                                lambda cell, n=n, xty=xty: [px_arg(xty, n, c[0], c[1], i) for i, c in enumerate(cell)],
                                [cells] * 3, spec_n(px, f, 3), 32, gargs=g, flat=flat1, key_label='%s::%s' % (xty.name, nm))
                 tot += decided(st)
-                if n in (8, 16, 32) or (ctx.tier == 'thorough' and n >= 6):
+                if (xty is PX2 or ctx.tier == 'thorough') and (n in (8, 32) or (ctx.tier == 'thorough' and n >= 6)):
                     # fused probes of the N-bit format (rounding matrix + sparse products with a lone lowest bit)
                     import probes
                     from props.common import run_points
                     import gcr
                     from aval import mask as _mask
                     fmt = gcr.PTy('%s<%d>' % (xty.name, n), xty.tykey, n, xty.es)
-                    pts = probes.fma_probes(fmt, 1)[::3] + probes.fma_sparse_probes(fmt, per_m=3)
+                    pts = probes.fma_probes(fmt, 1)[::(3 if ctx.tier == 'thorough' else 7)] + probes.fma_sparse_probes(fmt, per_m=3)
                     if nm == 'mul_sub':
                         pts = [(a, b, (-c) & _mask(n)) for a, b, c in pts]
                     elif nm == 'sub_product':
                         pts = [(c, (-a) & _mask(n), b) for a, b, c in pts]
                     sh_ = 32 - n
-                    run_points(ctx, prog, 'GCR', '%s<%d>::%s' % (xty.name, n, nm), path, fmt, pts,
-                               lambda xs, px=px, f=f, sh_=sh_: spec_n(px, f, 3)([x << sh_ for x in xs]), gargs=g, key_label='%s::%s' % (xty.name, nm),
-                               mkargs=lambda pt, n=n, xty=xty: [px_arg(xty, n, x, x, i) for i, x in enumerate(pt)], out_bits=32)
+                    pjobs.append(dict(rule='GCR', label='%s<%d>::%s' % (xty.name, n, nm), path=path, pty=fmt, points=pts,
+                                      spec=(lambda xs, px=px, f=f, sh_=sh_: spec_n(px, f, 3)([x << sh_ for x in xs])), gargs=g, key_label='%s::%s' % (xty.name, nm),
+                                      mkargs=(lambda pt, n=n, xty=xty: [px_arg(xty, n, x, x, i) for i, x in enumerate(pt)]), out_bits=32))
             for nm, sp in (('sqrt', sqrt_spec), ('round', round_spec)):
                 path = prog.inherent(xty.tykey, nm)
                 if not path:
@@ -124,6 +125,8 @@ def run(ctx):
                                lambda cell, n=n, xty=xty: [px_arg(xty, n, cell[0][0], cell[0][1], 0)],
                                [cells], sp(px), 32, gargs=g, flat=flat1, key_label='%s::%s' % (xty.name, nm))
                 tot += decided(st)
+    from props.common import run_points_parallel
+    run_points_parallel(ctx, prog, pjobs)
     # R10 with one symbolic operand on the generic-width kernels (same families as C01 / C05): PxE2 for + - * / and the fused family, PxE1 for * /
     # (PxE1's + - and fused kernels are known to be wrong - see the known findings - and are left to the R2 cells above)
     import rules_rounding as RR
